@@ -1,5 +1,5 @@
 (* C05 — concurrent threads and coroutines never leak action context into each other. *)
-From Coq Require Import List.
+From Coq Require Import List PArith.
 Require Import Eliot.Base.Level Eliot.Model.Core Eliot.Model.Prog Eliot.Proofs.CoreBasics Eliot.Proofs.CtxFrame.
 Import ListNotations.
 
@@ -59,3 +59,15 @@ Theorem C05_shared_action_refuted :
     probes_of c (run cfg ops s) <> probes_of c (run cfg (proj c ops) s).
 Proof. exact CtxFrameExamples.C05_shared_action_refuted. Qed.
 Print Assumptions C05_shared_action_refuted.
+
+(* ---- attribution (Proofs/Attribution.v) ---- *)
+Require Import Eliot.Proofs.Attribution.
+
+(* every message is attributed to the action current in the context that logged it:
+   that action's uuid and its next position *)
+Theorem C05_attribution :
+  forall s c h a, cur s c = Some h -> alookup h (heap s) = Some a ->
+    msg_position s c =
+      (set_heap s h (fst (next_level a)), a_uuid a, a_level a ++ [Pos.of_nat (S (a_last a))]).
+Proof. exact attributed_message_position. Qed.
+Print Assumptions C05_attribution.
